@@ -116,14 +116,34 @@ def build_system(pp, torch, S, kind):
     return Sys2()
 
 
-def impl_step(pp, torch, filt_name, c, kind='nls', model=None):
-    """one call of the real filter; returns (x', P') as lists of floats"""
+def impl_step(pp, torch, filt_name, c, kind='nls', model=None, obj=None, warm=True):
+    """one call of the real filter; returns (x', P') as lists of floats.  The filter object is the caller's [obj]
+    when given (the user's loop keeps ONE filter object for the whole run); otherwise a fresh object is first
+    called once with other arguments (UKF: another k > -n) and the result discarded, so every step case is a
+    two-call history on one object: a filter that keeps anything from an earlier call shows up here."""
     T = lambda v: torch.tensor(v, dtype=torch.float64)
     model = model if model is not None else build_system(pp, torch, c['S'], kind)
+    args = (T(c['x']), T(c['y']), T(c['u']), T(c['P']), T(c['Q']), T(c['R']))
     if filt_name == 'ekf':
-        x, P = pp.module.EKF(model)(T(c['x']), T(c['y']), T(c['u']), T(c['P']), T(c['Q']), T(c['R']))
+        f = obj if obj is not None else pp.module.EKF(model)
+        if obj is None and warm:
+            try:
+                f(T(c['x']) + 1.0, T(c['y']) - 0.5, T(c['u']), T(c['P']) * 2.0, T(c['Q']), T(c['R']))
+            except Exception:   # noqa  (only the judged call matters)
+                pass
+        x, P = f(*args)
     else:
-        x, P = pp.module.UKF(model)(T(c['x']), T(c['y']), T(c['u']), T(c['P']), T(c['Q']), T(c['R']), k=c.get('k'))
+        f = obj if obj is not None else pp.module.UKF(model)
+        if obj is None and warm:
+            k0 = c.get('k')
+            kw = (3.0 - len(c['x'])) if k0 is not None else 1.25      # a different, admissible k (> -n)
+            if k0 is not None and abs(kw - k0) < 1e-9:
+                kw = k0 + 0.75
+            try:
+                f(T(c['x']) + 1.0, T(c['y']) - 0.5, T(c['u']), T(c['P']) * 2.0, T(c['Q']), T(c['R']), k=kw)
+            except Exception:   # noqa
+                pass
+        x, P = f(*args, k=c.get('k'))
     return [float(v) for v in x.tolist()], [[float(v) for v in row] for row in P.tolist()]
 
 
@@ -551,11 +571,11 @@ class Run:
             self.ctx.violation(key, what, dict(strip(meta), expect_key=key))
 
     # ---- one filter call: implementation, oracle, literal for Coq
-    def step_case(self, filt, c, kind='nls', family='step', model=None, judge=True, run=None):
+    def step_case(self, filt, c, kind='nls', family='step', model=None, judge=True, run=None, obj=None):
         ctx = self.ctx
         meta = dict(kind='step', filter=filt, syskind=kind, case=c, family=family)
         try:
-            ox, oP = impl_step(self.pp, self.torch, filt, c, kind, model)
+            ox, oP = impl_step(self.pp, self.torch, filt, c, kind, model, obj=obj)
         except Exception as e:      # noqa
             ctx.violation('%s.forward:raises' % filt.upper(), '%s.forward raised %s: %s' % (filt.upper(), type(e).__name__, e), meta)
             return None
@@ -604,6 +624,7 @@ class Run:
         if rho > 0.9:
             S['A'] = (np.array(S['A']) * (0.9 / rho)).tolist()
         model = build_system(self.pp, self.torch, S, kind)
+        fobj = (self.pp.module.EKF if filt == 'ekf' else self.pp.module.UKF)(model)     # ONE object for the whole run
         x, P = c0['x'], c0['P']
         steps = []
         self.runs.append((filt, '%s %s %s %s' % (sys_lit(S), qm(c0['Q']), qm(c0['R']), qlit(kval(c0))), steps))
@@ -622,7 +643,7 @@ class Run:
                 self.ctx.count('run-stopped-simulated-state-diverged')
                 break
             c = dict(c0, x=x, P=P, u=u.tolist(), y=yt.tolist())
-            r = self.step_case(filt, c, kind, family='run', model=model, judge=(t % 5 == 4 or t < 2), run=steps)
+            r = self.step_case(filt, c, kind, family='run', model=model, judge=(t % 5 == 4 or t < 2), run=steps, obj=fobj)
             if r is None:
                 break
             x, P = r
